@@ -87,9 +87,17 @@ def fam_c07(tier, seed):
             plans.append((combo, [(o1, 1), (o2, rng.choice([1, 2]))]))
         plans.append((combo, [(0, 3)]))
         plans.append((combo, [(offs[2], 1), (offs[2], 1), (offs[3], 1)]))
+    # several receivers parked, several requests arriving together (pushes before the first woken
+    # receiver re-takes the lock): always present
+    burst = []
+    for combo in (("recv", "recv"), ("recv", "recv", "recv"), ("iter", "recv"), ("recv", "timedloop")):
+        for conns in ([(0, 2)], [(0, 3)], [(0, 1), (0, 1)], [(0, 1), (0, 1), (0, 1)], [(2 * MS, 2), (2 * MS, 1)]):
+            burst.append((combo, conns))
     if tier == "quick":
         must = [p for p in plans if p[0] == ("recv", "timed1") and len(p[1]) == 1]
-        plans = must + _sample(rng, plans, 260)
+        plans = must + burst + _sample(rng, plans, 260)
+    else:
+        plans = burst + plans
     # unblock() while nobody is blocked, then requests that only polling / timed receivers will take
     extra = []
     for combo in (("trypoll",), ("trypoll", "trypoll"), ("timedloop",), ("trypoll", "timedloop")):
@@ -871,7 +879,8 @@ def _concretise_line(rec, rng):
 def fam_c02(tier, seed):
     import props, json as _json, os as _os
     rng = _rng("C02", seed)
-    gen = _os.path.join("/verif/work", "C02gen")
+    import vlib as _vlib
+    gen = _os.path.join(_vlib.WORK, "C02gen")
     _os.makedirs(gen, exist_ok=True)
     lines_path = _os.path.join(gen, "lines.%s.ndjson" % tier)
     props.fn_tlc("genC02", tier, lines_path, "/dev/null", "fn_genC02")
